@@ -13,7 +13,19 @@ ASSUMPTIONS = __import__('harness.c06', fromlist=['x']).ASSUMPTIONS + [
     'conflicting _default declarations are outside the claim: the last declaration wins silently (DESIGN.md section 7); the model reproduces this',
 ]
 IMPORTS, CHECK_FN, BAD_TERM = wire.IMPORTS, wire.CHECK_FN, wire.BAD_TERM
-stat_key, nontrivial, model_output = wire.stat_key, wire.nontrivial, wire.model_output
+model_output = wire.model_output
+
+
+def stat_key(c, ob):
+    if c['kind'] == 'arrval':
+        return 'arrval/%s/%s' % (c['field'], 'ok' if 'ok' in ob else 'raised')
+    return wire.stat_key(c, ob)
+
+
+def nontrivial(c, ob):
+    if c['kind'] == 'arrval':
+        return c['a'] != c['b']
+    return wire.nontrivial(c, ob)
 
 
 def generate(seed, tier, enlarged=False):
@@ -67,7 +79,52 @@ def generate(seed, tier, enlarged=False):
             c2['procs'] = wire.nested_order(c2['procs'] + [q])
             c2['malformed'] = True
             extra.append(c2)
-    return cases + extra
+    # array-valued `_value` declared by two processes for one node: equal arrays merge silently, arrays that differ
+    # in an element OR IN SHAPE (also when they broadcast to equal elements) are a conflict
+    arr = []
+    shapes = [[3], [1], [2, 3], [3, 1], [1, 3], [2], [2, 2]]
+    for _ in range(max(8, n // 20)):
+        a = {'shape': rng.choice(shapes), 'fill': rng.choice([1, 2, 0])}
+        r = rng.random()
+        if r < 0.3:
+            b = dict(a)
+        elif r < 0.7:
+            b = {'shape': rng.choice(shapes), 'fill': a['fill']}
+        else:
+            b = {'shape': list(a['shape']), 'fill': a['fill'] + 1}
+        arr.append({'kind': 'arrval', 'a': a, 'b': b, 'field': rng.choice(['_value', '_value', '_default'])})
+    return cases + extra + arr
+
+
+def run_arrval(c):
+    import numpy as np
+    from vivarium.core.store import generate_state
+    mk = lambda d: np.full(tuple(d['shape']), d['fill'])
+    P = wire.pcls()
+    field = c['field']
+    procs = {'pa': P({'schema': {'s': {'v': {field: mk(c['a']), '_updater': 'set'}}}}),
+             'pb': P({'schema': {'s': {'v': {field: mk(c['b']), '_updater': 'set'}}}})}
+    topo = {'pa': {'s': ('store',)}, 'pb': {'s': ('store',)}}
+    try:
+        store = generate_state(procs, topo, {})
+        v = store.get_path(('store', 'v')).get_value()
+        return {'ok': 1, 'arr': [list(np.shape(v)), np.asarray(v).tolist()]}
+    except Exception as e:
+        return {'err': type(e).__name__ + ':' + str(e)[:160]}
+
+
+def oracle_arrval(c, ob):
+    same = c['a'] == c['b']
+    if c['field'] == '_value':
+        if same and 'ok' not in ob:
+            return [('two equal array _value declarations were refused: %s' % ob.get('err'), 'compatible-refused')]
+        if not same and 'ok' in ob:
+            return [('_value arrays of shape %r (all %r) and shape %r (all %r) for one node were accepted silently; '
+                     'the node holds shape %r' % (c['a']['shape'], c['a']['fill'], c['b']['shape'], c['b']['fill'],
+                                                  ob['arr'][0]), 'conflict-accepted')]
+    elif 'ok' not in ob:
+        return [('array defaults for one node made construction raise: %s' % ob.get('err'), 'construction-raised')]
+    return []
 
 
 def _has(s, field):
@@ -109,7 +166,7 @@ def run_composite(c):
     """Composite.initial_state()/default_state(): each process's own values must land on the nodes its ports are
     wired to; a one-off override passed in the config must not stick to the composite"""
     from vivarium.core.composer import Composite
-    from vivarium.core.process import Process
+    from vivarium.core.process import Process, Step
     base = wire.pcls()
 
     class Owning(base):
@@ -117,29 +174,45 @@ def run_composite(c):
 
         def initial_state(self, config=None):
             return copy.deepcopy(self.parameters['own'])
-    processes, topology, owns = {}, {}, []
+
+    class OwningStep(Step):
+        defaults = {'schema': {}, 'own': {}}
+
+        def ports_schema(self):
+            return copy.deepcopy(self.parameters['schema'])
+
+        def next_update(self, timestep, states):
+            return {}
+
+        def initial_state(self, config=None):
+            return copy.deepcopy(self.parameters['own'])
+    processes, steps, topology, owns = {}, {}, {}, []
     for i, p in enumerate(c['procs']):
-        d, t = processes, topology
+        # every third one is a Step, listed in the `steps` dict of the same compartment
+        is_step = i % 3 == 2
+        d, t = (steps if is_step else processes), topology
         for k in p['parent']:
             d = d.setdefault(k, {})
             t = t.setdefault(k, {})
         own = own_values(p['schema'], 1000 * (i + 1))
         owns.append(own)
-        d[p['name']] = Owning({'schema': wire.py_schema(p['schema']), 'own': own})
+        d[p['name']] = (OwningStep if is_step else Owning)({'schema': wire.py_schema(p['schema']), 'own': own})
         t[p['name']] = {k: wire.py_topo(x) for k, x in p['topo']}
     # the order in which _get_composite_state_recur visits the processes: at every level the iteration order of
     # set(processes.keys() | steps.keys()), replicated here with the same expression on the same dicts
     order = []
 
-    def visit(d, path):
-        for key in set(d.keys() | {}.keys()):
-            if isinstance(d[key], dict):
-                visit(d[key], path + (key,))
+    def visit(dp, ds, path):
+        for key in set(dp.keys() | ds.keys()):
+            sp, ss = dp.get(key), ds.get(key)
+            if isinstance(sp, dict) or isinstance(ss, dict):
+                visit(sp or {}, ss or {}, path + (key,))
             else:
                 order.append(list(path + (key,)))
-    visit(processes, ())
+    visit(processes, steps, ())
     state0 = copy.deepcopy(c['init'])
-    comp = Composite({'processes': processes, 'topology': topology, 'state': copy.deepcopy(state0)})
+    comp = Composite({'processes': processes, 'steps': steps, 'flow': {}, 'topology': topology,
+                      'state': copy.deepcopy(state0)})
     first = comp.initial_state()
     override = {'zz_override': {'x': 42}}
     for k, v in first.items():
@@ -157,6 +230,8 @@ def run_composite(c):
 
 
 def run_impl(c):
+    if c['kind'] == 'arrval':
+        return run_arrval(c)
     ob = wire.run_impl(dict(c, kind='gen') if c['kind'] == 'comp' else c)
     if c['kind'] == 'comp' and 'ok' in ob:
         try:
@@ -167,6 +242,8 @@ def run_impl(c):
 
 
 def render(c, ob):
+    if c['kind'] == 'arrval':
+        return None                           # oracle only
     if c['kind'] == 'comp':
         return render_composite(c, ob)        # None (not sent to Coq) when generate_state itself rejects the composite
     return wire.render(c, ob)
@@ -254,6 +331,8 @@ def composite_oracle(c, ob):
 def oracle(c, ob, rng):
     """explicit-else-default on the implementation alone, using the read views to find each variable's node"""
     msgs = []
+    if c['kind'] == 'arrval':
+        return oracle_arrval(c, ob)
     if c.get('malformed'):
         if 'ok' in ob:
             msgs.append(('incompatible _value/_units declarations for one node were accepted silently', 'conflict-accepted'))
